@@ -118,6 +118,7 @@ def run(tier, seed):
     bad = tensor_swap_oracle(rep, rng, 3 if tier == "quick" else 4)
     for what, payload in bad:
         rep.violation(what, payload)
+    empty_dom_stream(rep)
     base.settle(rep, "C10", proof_ok, "C10")
     return rep.finish(
         rule="per class (monoidal, rigid, tensor, circuit, zx): every (left, right) split of "
@@ -129,6 +130,38 @@ def run(tier, seed):
                      "tensor/circuit/zx classes share monoidal.Diagram.swap/permutation via "
                      "ar_factory/swap_factory; their type constructors are exercised, not modelled"],
         checker_cmd="make -C coq Props/C10.vo  (coqc 8.16.1, Print Assumptions parsed)")
+
+
+def empty_dom_stream(rep):
+    """Oracle-only: in every class that has its own `permutation` entry point (monoidal, rigid,
+    tensor, circuit, zx) a non-empty list with an explicitly given EMPTY domain is a length
+    mismatch and is refused with ValueError; the empty list on the empty domain is the identity."""
+    from discopy import monoidal, rigid, tensor
+    from discopy.quantum import circuit, zx
+    classes = [("monoidal", monoidal.Diagram, monoidal.Ty()), ("monoidal-PRO", monoidal.Diagram, monoidal.PRO(0)),
+               ("rigid", rigid.Diagram, rigid.Ty()), ("rigid-PRO", rigid.Diagram, rigid.PRO(0)),
+               ("tensor", tensor.Diagram, tensor.Dim(1)), ("circuit", circuit.Circuit, circuit.Ty()),
+               ("zx", zx.Diagram, rigid.PRO(0))]
+    for name, D, empty in classes:
+        for perm in ([0], [1, 0], [0, 1], [2, 0, 1]):
+            rep.count("stream:empty-dom")
+            try:
+                r = D.permutation(list(perm), empty)
+            except ValueError:
+                rep.count("oracle:empty-dom:pass")
+                continue
+            except Exception as exc:   # noqa
+                rep.violation("%s: permutation(%r, <empty domain>) raised %s instead of ValueError" % (
+                    name, perm, type(exc).__name__), {"class": name, "perm": perm})
+                continue
+            rep.violation("%s: permutation(%r, <empty domain>) is accepted and returns %r" % (name, perm, r),
+                          {"class": name, "perm": perm})
+        try:
+            r = D.permutation([], empty)
+            if len(r.boxes) != 0 or len(r.dom) != 0:
+                rep.violation("%s: permutation([], <empty domain>) is not the empty identity" % name, {"class": name})
+        except Exception as exc:   # noqa
+            rep.violation("%s: permutation([], <empty domain>) raised %s" % (name, type(exc).__name__), {"class": name})
 
 
 def oracle(ci, cls, kind, a, b, p):
